@@ -13,7 +13,7 @@ CONSTANTS MaxFaults,      \* <= 2 in generation
 
 VARIABLES a, hist
 
-Init == /\ \E w \in {"plain", "gz"}, e \in Empties : a = Valid(w, e)
+Init == /\ \E w \in {"plain", "gz"}, e \in Empties : a = Valid(w, e)      \* meta.json listed first; ArchiveTrace takes the order from the archive
         /\ hist = <<>>
 Next == /\ Len(hist) < MaxFaults
         /\ \E f \in Faults(a) : a' = Apply(a, f) /\ hist' = Append(hist, f)
